@@ -6,8 +6,8 @@
    become separate entries.  For `cond` the two readings agree (all truthy); for `unless` they do not:
    - the guard of a machine constructed with a blocking listener lets the transition fire although
      the guard does not hold on that listener;
-   - the same listener attached later blocks it, and a clone of that machine fires it again: the
-     clone does not respond like the original. *)
+   - the same listener attached later blocks it; until the repair D30 a clone of that machine (which re-attached
+     everything in one round) fired it again - it now replays the rounds of its original and refuses it too. *)
 From Coq Require Import List Arith Bool ZArith.
 Import ListNotations.
 From PySM Require Import Impl.Engine Impl.Registry Impl.History.
@@ -46,8 +46,10 @@ Theorem unless_over_round_providers_refuted :
              outcome_of md [open_] = [RVal no_res].
 Proof. exists (door [[0; 1; 2]]). vm_compute. repeat split. Qed.
 
-(* the clone of the machine with the late listener fires the event its original refuses *)
-Theorem clone_responds_like_original_refuted :
-  exists md ops,
-    tl (map o_out (run_ops says md 10 (OClone :: ops) at_closed)) <> map o_out (run_ops says md 10 ops at_closed).
-Proof. exists (door [[0; 1]; [2]]), [open_]. vm_compute. discriminate. Qed.
+(* the clone of the machine with the late listener: while a clone re-attached every listener in one round with
+   machine and model it fired the event its original refuses (the refuted theorem that stood here until the
+   repair D30); now that it replays the rounds of its original, it refuses it too *)
+Example clone_of_the_door_refuses_too :
+  tl (map o_out (run_ops says (door [[0; 1]; [2]]) 10 [OClone; open_] at_closed))
+  = map o_out (run_ops says (door [[0; 1]; [2]]) 10 [open_] at_closed).
+Proof. vm_compute. reflexivity. Qed.
